@@ -94,7 +94,7 @@ def oracle(case, io, mo):
             if nb.start is not None:
                 ws, we = shift_pos(starts, nb.start), shift_pos(starts, nb.end) if nb.end > nb.start else shift_pos(starts, nb.start)
                 # an end position sitting exactly on a line start belongs to the previous line's end + terminator
-                if (nq.start, nq.end) != (ws, we) and (nq.start, nq.end) != (ws, shift_pos(starts, nb.end - 1) + 1 if nb.end > 0 else we):
+                if (nq.start, nq.end) != (ws, we):
                     return "range of %s is [%d,%d) in D but [%d,%d) under the quote (expected a shift by the inserted prefix bytes)" % (nb.kind, nb.start, nb.end, nq.start, nq.end)
         return None
     if p["role"] == "item":
